@@ -95,6 +95,10 @@ class FrameState:
             for nm in [n.id for n in ast.walk(gen.target) if isinstance(n, ast.Name)]:
                 st2[nm] = elem
             return ("L", self.kind(e.elt, st2, depth + 1))
+        if isinstance(e, ast.Subscript) and isinstance(e.value, ast.Name) and e.value.id == "data_map":
+            return "D"   # the caller's frame: any index
+        if isinstance(e, ast.Attribute) and isinstance(e.value, ast.Name) and e.attr == "head" and e.value.id == "op":
+            return "D"
         if isinstance(e, ast.Subscript):
             base = e.value
             # x.loc[rows, cols] / x.iloc[rows, cols]
